@@ -3,6 +3,7 @@ from __future__ import annotations
 
 T = "Jelly."
 # generated-from-source = model, for pyjelly/serialize/lookup.py and pyjelly/parse/lookup.py (JellyProofs/Translated.lean)
+TRANSLATED_FLOWS = [T + "Translated." + n for n in ['manual_to_stream_frame', 'manual_frame_from_bounds', 'manual_frame_from_graph', 'manual_frame_from_dataset', 'manual_init', 'bounded_to_stream_frame', 'bounded_frame_from_bounds', 'bounded_frame_from_graph', 'bounded_frame_from_dataset', 'bounded_init', 'flatTriples_to_stream_frame', 'flatTriples_frame_from_bounds', 'flatTriples_frame_from_graph', 'flatTriples_frame_from_dataset', 'flatTriples_init', 'flatQuads_to_stream_frame', 'flatQuads_frame_from_bounds', 'flatQuads_frame_from_graph', 'flatQuads_frame_from_dataset', 'flatQuads_init', 'graphs_to_stream_frame', 'graphs_frame_from_bounds', 'graphs_frame_from_graph', 'graphs_frame_from_dataset', 'graphs_init', 'datasets_to_stream_frame', 'datasets_frame_from_bounds', 'datasets_frame_from_graph', 'datasets_frame_from_dataset', 'datasets_init', 'default_frame_size', 'class_logical_types']]
 TRANSLATED = [T + "Translated." + n for n in ["make_last_to_evict_eq","insert_eq","entry_index_eq","term_index_eq","name_term_index_eq","prefix_term_index_eq","datatype_term_index_eq","lookup_new","lookup_enc_new","lookup_dec_new","assign_entry_eq","at_eq","decode_prefix_eq","decode_name_eq","decode_datatype_eq","C05_translated"]]
 
 REGISTRY: dict[str, dict] = {
@@ -73,8 +74,8 @@ REGISTRY: dict[str, dict] = {
              "injected stream the referee rejects.",
     ),
     "C06": dict(
-        modules=["C06", "C13", "Tables"],
-        theorems=[T + "C06_nothing_left_in_flow", T + "C06_rows_independent_of_flow", T + "C06_no_empty_frame",
+        modules=["C06", "C13", "Tables", "TranslatedFlows"],
+        theorems=[*TRANSLATED_FLOWS, T + "C06_nothing_left_in_flow", T + "C06_rows_independent_of_flow", T + "C06_no_empty_frame",
                   T + "C13_infer_flow_table"],
         table_theorems=[T + "tables_stream_new", T + "tables_flow_mk", T + "tables_flow_for_type"],
         rule="SER over the configuration lattice {Triple,Quad,Graph}Stream x 8 logical types x delimited{T,F} x flow in "
@@ -84,8 +85,10 @@ REGISTRY: dict[str, dict] = {
              "Non-trivial = a configuration the serializer accepts.",
     ),
     "C11": dict(
-        modules=["C06", "C10", "C04Bytes"],
-        theorems=[T + "C11_trace_faithful", T + "C11_pending_below_frame_size", T + "C11_no_lookahead", T + "C11_parse_live",
+        modules=["C06", "C10", "C04Bytes", "TranslatedFlows"],
+        theorems=[T + "Translated.bounded_frame_from_bounds", T + "Translated.flatTriples_frame_from_bounds", T + "Translated.flatQuads_frame_from_bounds",
+                  T + "Translated.flatTriples_to_stream_frame", T + "Translated.flatQuads_to_stream_frame", T + "Translated.flatTriples_init",
+                  T + "Translated.flatQuads_init", T + "C11_trace_faithful", T + "C11_pending_below_frame_size", T + "C11_no_lookahead", T + "C11_parse_live",
                   T + "C10_complete_frames_delivered", T + "C10_events_prefix", T + "C10_frames_prefix"],
         rule="SERSTEP: pull/yield traces of stream_frames(stream, instrumented generator) for Triple/Quad/GraphStream, frame "
              "sizes {1,2,3,5,7,250}, compared with the model's trace; oracle (i) pending < frame_size at pulls >= 2, (ii) one "
@@ -152,8 +155,9 @@ REGISTRY: dict[str, dict] = {
              "configuration with >= 2 statements.",
     ),
     "C07": dict(
-        modules=["C07", "C06", "C07Grouped"],
-        theorems=[T + "C07_grouped_triples_valid", T + "C07_grouped_quads_valid", T + "C07_frames_eq_rows", T + "C07_repartition", T + "C07_grouped_one_per_frame",
+        modules=["C07", "C06", "C07Grouped", "TranslatedFlows"],
+        theorems=[T + "Translated.graphs_frame_from_graph", T + "Translated.datasets_frame_from_dataset", T + "Translated.graphs_to_stream_frame",
+                  T + "Translated.datasets_to_stream_frame", T + "C07_grouped_triples_valid", T + "C07_grouped_quads_valid", T + "C07_frames_eq_rows", T + "C07_repartition", T + "C07_grouped_one_per_frame",
                   T + "C07_grouped_concat_eq_flat", T + "C07_one_frame_per_nonempty_sink", T + "C06_rows_independent_of_flow"],
         rule="PARSE on reference-encoder row sequences re-cut into frames at EVERY single position and at random multi-cuts "
              "with empty frames and metadata: flat(recut) == flat(one frame); grouped: one sink per frame, concatenation == "
